@@ -120,6 +120,11 @@ Fixpoint strs_eqb (a b : list string) : bool :=
   | x :: a', y :: b' => String.eqb x y && strs_eqb a' b'
   | _, _ => false
   end.
+(* constants the model and the harness rely on (regenerated from transfer/model.py) *)
+Definition constants_ok_b : bool :=
+  String.eqb abort_reason_requested "Requested" && negb (Nat.eqb (dir_value Upload) (dir_value Download)) &&
+  Nat.ltb (dir_value Upload) 10 && Nat.ltb (dir_value Download) 10.
+
 Definition persisted_fields_b : bool :=
   strs_eqb (filter (fun f => negb (existsb (String.eqb f) unpickable_fields)) init_fields) modelled_persisted.
 
@@ -143,7 +148,7 @@ Definition repair_init_ok_b : bool :=
 Definition ident : Type := (list N * list N * direction)%type.
 Definition ident_of (m : mt) : ident := (m_user m, m_path m, m_dir m).
 
-Definition dir_digit (d : direction) : N := match d with Upload => 48%N | Download => 49%N end.   (* str(direction.value) *)
+Definition dir_digit (d : direction) : N := N.of_nat (48 + dir_value d).   (* str(direction.value); values regenerated *)
 (* the string hashed by versions before the fix of F21: username + remote_path + str(direction.value), no
    separators; only used to describe databases written by those versions *)
 Definition keystr (i : ident) : list N := match i with (u, p, d) => u ++ p ++ [dir_digit d] end.
